@@ -264,7 +264,45 @@ fn run(prop_id: &str, tier: &str) -> i32 {
         children.push((name, ch));
     }
 
-    let statuses = runner::wait_all(children, runner::wall_limit(tier), started);
+    let mut statuses = runner::wait_all(children, runner::wall_limit(tier), started);
+
+    // ---- a watchdog exit (97 = one implementation call over the CPU budget, 98 = the check itself too slow) is
+    // confirmed before it is believed: evaluation is a pure function of the case, so a genuine hang kills the re-run
+    // worker at the same case again, whereas a stall of the machine (CPU time billed to a descheduled virtual CPU) does not.
+    let mut retry = vec![];
+    for (name, st) in &statuses {
+        let code = st.as_ref().and_then(|s| s.code());
+        if code != Some(97) && code != Some(98) {
+            continue;
+        }
+        let (profile, w) = name.split_once('/').unwrap_or((name.as_str(), "0"));
+        if profile == "external" {
+            continue;
+        }
+        let child = if profile == "regress" {
+            groups.iter().find(|g| g.0 == w).map(|(p, bin, _, _)| (format!("w900-{}-regress", p), spawn(bin, vec!["--replay-file".into(), reg_file.to_string_lossy().to_string()], &format!("{}-regress", p), 900, 1, 1.0)))
+        } else {
+            groups.iter().find(|g| g.0 == profile).and_then(|(p, bin, n, scale)| w.parse::<u64>().ok().map(|wi| (format!("w{}-{}", wi, p), spawn(bin, vec![], p, wi, *n, *scale))))
+        };
+        if let Some((tag, Ok(ch))) = child {
+            let hang_file = out_dir.join(format!("{}.hang", tag));
+            let first = std::fs::read_to_string(&hang_file).unwrap_or_default();
+            let _ = std::fs::remove_file(&hang_file);
+            println!("NOTE: worker {} was stopped by the CPU watchdog (exit {}); re-running it once to confirm: {}", name, code.unwrap_or(0), first.chars().take(300).collect::<String>());
+            retry.push((name.clone(), ch));
+        }
+    }
+    if !retry.is_empty() {
+        let again = runner::wait_all(retry, runner::wall_limit(tier), std::time::Instant::now());
+        for (name, st) in again {
+            if st.as_ref().map(|s| s.success()).unwrap_or(false) {
+                println!("NOTE: worker {} completed normally when re-run: the watchdog exit did not reproduce and is not a finding", name);
+            }
+            if let Some(slot) = statuses.iter_mut().find(|(n, _)| *n == name) {
+                slot.1 = st;
+            }
+        }
+    }
 
     // ---- merge
     let mut merged = Merged { subs: BTreeMap::new() };
@@ -318,6 +356,12 @@ fn run(prop_id: &str, tier: &str) -> i32 {
                         Some(h) => format!(" after exceeding the per-case CPU budget in sub-check {} on case {}", h["sub"].as_str().unwrap_or("?"), h["case_text"].as_str().unwrap_or("").chars().take(400).collect::<String>()),
                         None => String::new(),
                     };
+                    // keep the whole case for analysis (an inconclusive run decides nothing, but its cause must be found)
+                    if let Some(h) = &hang {
+                        let dir = root.join("target").join("inconclusive");
+                        let _ = std::fs::create_dir_all(&dir);
+                        let _ = std::fs::write(dir.join(format!("{}-{}-{}.json", prop_id, h["sub"].as_str().unwrap_or("sub"), std::process::id())), h.to_string());
+                    }
                     inconclusive.push(format!("worker {} ended abnormally ({:?}){}", name, s, detail));
                 }
             }
